@@ -550,12 +550,28 @@ func run(t *testing.T, sc Scenario, record bool) *detsim.Outcome {
 		on := make([]bool, len(sc.Metrics))
 		for i, m := range sc.Metrics {
 			switch m.Shape {
-			case shapePresent, shapeOtherValues, shapeAppeared, shapeNoLabels, shapeIntermittent:
+			case shapePresent, shapeOtherValues, shapeAppeared, shapeNoLabels:
 				on[i] = true
+			case shapeIntermittent:
+				// whichever phase it is in right now goes on
+				for _, srs := range backend.DB.Series {
+					if srs.Labels.Get("__name__") == fmt.Sprintf("m%d", i) && len(srs.Samples) > 0 && srs.Samples[len(srs.Samples)-1].T >= (now.Unix()-120)*1000 {
+						on[i] = true
+					}
+				}
 			}
 		}
 		roundNow := now
 		extendedUntil := now
+		// The server keeps scraping while pint is asking: before every answer the database is brought
+		// up to that instant with whatever is being exported at the moment. (Without this a check that
+		// takes more than five simulated minutes - slow other servers - would see every series go stale.)
+		backend.OnQuery = func(t time.Time) {
+			if t.After(extendedUntil) {
+				extendDB(backend.DB, on, extendedUntil, t)
+				extendedUntil = t
+			}
+		}
 		changedAt := make([]time.Time, len(sc.Metrics))
 		for round := 0; round <= len(sc.Rounds) && live; round++ {
 			if round > 0 {
